@@ -45,6 +45,8 @@ def matches_expect(native_res,pred):
     """does the native result reproduce the interpreter's predicted outcome?"""
     outs=native_res.get('outcomes') or [native_res.get('outcome')]
     outs=['panic' if o.startswith('panic') else o for o in outs]
+    if isinstance(pred,dict) and 'not' in pred:      # the native run must deviate from the CORRECT outcome (how exactly may depend on e.g. directory order)
+        return all(o!=pred['not'] for o in outs)
     if pred=='nondeterministic-summary': return len(native_res.get('summaries') or [])>1
     if isinstance(pred,(list,tuple)):           # verdict depends on iteration order: both classes must show up natively
         return len(set(verdict_class(o) for o in outs))>1
